@@ -220,13 +220,15 @@ class SArr:
     # --- indexing along axis 0 (and tuples)
     def __getitem__(self, key):
         if isinstance(key, tuple):
-            a = self
-            # only leading integer / Z indices and full slices are used by the code under contract
+            if all(isinstance(k, slice) for k in key):
+                out = self
+                for ax, k in enumerate(key):
+                    out = out.moveaxis0(ax)._slice(k).unmoveaxis0(ax)
+                return out
+            if any(isinstance(k, slice) for k in key):
+                raise PathAbort('mixed integer/slice tuple index not modelled')
             out = self
-            pos = 0
             for k in key:
-                if isinstance(k, slice) and k == slice(None):
-                    raise PathAbort('partial tuple slicing not modelled')
                 out = out[k]
             return out
         n = self.shape[0]
@@ -276,6 +278,21 @@ class SArr:
         if step == -1 and sl.start is None and sl.stop is None:
             return SArr(self.shape, lambda idx: self.fn((to_len(n) - 1 - idx[0],) + idx[1:]), self.name)
         raise PathAbort(f'slice step {step} not modelled')
+
+    def moveaxis0(self, ax):
+        if ax == 0:
+            return self
+        perm = (ax,) + tuple(i for i in range(self.ndim) if i != ax)
+        return self.transpose(perm)
+
+    def unmoveaxis0(self, ax):
+        if ax == 0:
+            return self
+        perm = tuple(range(1, ax + 1)) + (0,) + tuple(range(ax + 1, self.ndim))
+        return self.transpose(perm)
+
+    def __abs__(self):
+        return SArr(self.shape, lambda idx: abs(wrap(self.fn(idx))), self.name)
 
     def transpose(self, perm):
         shp = tuple(self.shape[p] for p in perm)
@@ -328,11 +345,14 @@ def base_array(name, shape):
     return SArr(shape, lambda idx: Z(F(*[to_z3(i) for i in idx])), name), F
 
 
-class GenRange:
-    """np.arange(lo, hi) with symbolic bounds: iterated once with a generic index."""
+class GenRange(SArr):
+    """np.arange(lo, hi) with symbolic bounds: an array i -> lo + i; when iterated, the body
+    runs once with a generic index."""
 
     def __init__(self, lo, hi):
         self.lo, self.hi = ilen(lo), ilen(hi)
+        ln = z3.simplify(z3.If(to_z3(self.hi) - to_z3(self.lo) > 0, to_z3(self.hi) - to_z3(self.lo), 0))
+        SArr.__init__(self, (ln,), lambda idx: Z(to_z3(self.lo) + to_z3(idx[0])), 'arange')
 
     def __iter__(self):
         c = ctx()
@@ -452,6 +472,18 @@ class ShimNPz:
                 raise Infeasible()
             return Z(e)
         return SArr((total,) + rest, fn, 'concat')
+
+    def meshgrid(self, *arrs, indexing='xy'):
+        if indexing != 'ij':
+            raise PathAbort('meshgrid only modelled for indexing="ij"')
+        shp = tuple(a.shape[0] for a in arrs)
+        return [SArr(shp, (lambda idx, a=a, n=n: a.fn((idx[n],))), 'mesh') for n, a in enumerate(arrs)]
+
+    def argmin(self, a):
+        c = ctx()
+        i = c.new_int('argmin')
+        c.assume(z3.And(i >= 0, i < to_z3(a.shape[0])))
+        return Z(i)
 
     def transpose(self, a, axes=None):
         if axes is None:
